@@ -420,12 +420,15 @@ def gen_feat(rnd, pool):
     elif tail < 0.56:    # dynamic failures carrying rendered values
         lines.append(rnd.choice(['fail("boom", {%s: 1, %s: 2}, set([%s, %s]))' % (L(), L(), L(), L()), "{%s: 1}[%s]" % (L(), L()), "{1: 1, 1.0: 2}",
                                  "{[]: 1}", "set([{}])", "[1, 2][5]", '"abc".index("z")', "1 // 0", "int('zz')", "set([%s]).remove(%s)" % (L(), L()),
-                                 "{}.popitem()", "def rec(n): return rec(n + 1)\nrec(0)", "[x for x in range(1 << 40)]", "for k in SHARED_D: SHARED_D[k] = 1",
+                                 "{}.popitem()", "[x for x in range(1 << 40)]", "for k in SHARED_D: SHARED_D[k] = 1",
                                  "lst = [1, 2, 3]\nfor x in lst: lst.append(x)", "dd = {%s: 1}\nfor k in dd: dd[k + 'x'] = 1" % L(), "sorted([1, 'a'])",
                                  "struct(a=1) + struct(a=2) < 1", "struct(a=1).a = 2", "hash(1)", "json.encode({1: 2})", "json.decode('{\"a\": 1, \"a\": 2}')",
                                  "json.decode('[1, 2')", 'time.parse_duration("1x")', "time.time(year=1, monthh=2)"]))
         steps = rnd.choice([0, 0, 2000, 20000])
-    elif tail < 0.62:    # step budget exhausted at a deterministic point
+    elif tail < 0.58:    # unbounded recursion stopped by the step budget: a deep backtrace
+        lines.append(rnd.choice(["def rec(n): return rec(n + 1)\nrec(0)", "def ra(n): return rb(n) + 1\ndef rb(n): return ra([n])\nra(0)"]))
+        steps = rnd.choice([500, 3000])
+    elif tail < 0.64:    # step budget exhausted at a deterministic point
         lines.append(rnd.choice(["n = 0\nwhile True: n += 1", "for i in range(1 << 30): pass", "def loop(n):\n    for i in range(n):\n        for j in range(n): pass\nloop(100000)",
                                  "big = [i for i in range(1000000)]"]))
         steps = rnd.choice([500, 5000, 50000])
@@ -690,7 +693,7 @@ def generate(ctx):
     rnd = random.Random(ctx.seed)
     pool = build_pool(rnd)
     header = build_header(rnd, pool)
-    n = 320 if ctx.quick else 5000
+    n = int(os.environ.get("VERIF_C03_N", "0")) or (320 if ctx.quick else 5000)   # VERIF_C03_N: smaller corpora for mutation runs
     progs, seen = [], set()
     while len(progs) < n:
         r = rnd.random()
@@ -740,23 +743,53 @@ KIND_ORDER = {"seq": 0, "reuse": 1, "conc": 2, "proc": 3}
 
 
 def make_record(p, runs, hdig):
+    """one TLC record per program.  Observations are interned per group: tab[c] lists the distinct
+    values of component c, runs store 1-based indices; C03Trace expands them again."""
     runs = sorted(runs, key=lambda r: (KIND_ORDER[r["kind"]], r["k"]))
     key = input_key(hdig, p)
     first = runs[0]["obs"]
+    tab = {c: [] for c in COMPONENTS}
+    ordtab, ordkeys = [], []
     rec = {"id": p["id"], "fam": p["fam"], "need": NEED, "ordon": p["fam"] == "ord", "ops": p.get("ops", []),
-           "dir1": first.get("dirl") or [], "hashes": first.get("hash") or [], "runs": []}
+           "dir1": first.get("dirl") or [], "hashes": first.get("hash") or [], "tab": tab, "ordtab": ordtab, "runs": []}
     for r in runs:
         o = r["obs"]
-        obs = {c: o[c] for c in COMPONENTS}
-        obs["ord"] = o["ord"]
+        obs = {}
+        for c in COMPONENTS:
+            if o[c] not in tab[c]:
+                tab[c].append(o[c])
+            obs[c] = tab[c].index(o[c]) + 1
+        ok = json.dumps(o["ord"], sort_keys=True)
+        if ok not in ordkeys:
+            ordkeys.append(ok)
+            ordtab.append(o["ord"])
+        obs["ord"] = ordkeys.index(ok) + 1
         rec["runs"].append({"key": key, "kind": r["kind"], "k": r["k"], "fp": r["fp"], "obs": obs})
     return rec
+
+
+def obs_of(rec, run, c):
+    return rec["tab"][c][run["obs"][c] - 1]
+
+
+def dedupe(recs):
+    """dir listings and hash probes are pure functions of their content: check each distinct one once per file"""
+    seen, out = set(), []
+    for rec in recs:
+        r2 = dict(rec)
+        r2["dir1"] = [d for d in rec["dir1"] if json.dumps(d) not in seen]
+        r2["hashes"] = [h for h in rec["hashes"] if json.dumps(h) not in seen]
+        seen.update(json.dumps(d) for d in r2["dir1"])
+        seen.update(json.dumps(h) for h in r2["hashes"])
+        out.append(r2)
+    return out
 
 
 def validate(ctx, recs, poolfile, tag):
     """run C03Trace over the records; returns {id: reason text} for rejected records"""
     bad, files = {}, []
-    per = 700
+    per = 1000
+    recs = dedupe(recs)
     for k in range(0, len(recs), per):
         f = ctx.path("%s-%03d.ndjson" % (tag, k // per))
         vlib.write_ndjson(f, recs[k:k + per])
@@ -804,34 +837,45 @@ def signature(p, why):
 def describe(p, rec, why):
     """human readable account of a rejected record"""
     runs = rec["runs"]
-    base = runs[0]["obs"]
     for r in runs[1:]:
         for c in COMPONENTS:
-            if r["obs"][c] != base[c]:
+            if r["obs"][c] != runs[0]["obs"][c]:
                 return "program %d (%s): %s of run %s#%d differs from run %s#%d: %r vs %r [TLC: %s]" % (
-                    p["id"], p["fam"], c, r["kind"], r["k"], runs[0]["kind"], runs[0]["k"], str(r["obs"][c])[:160], str(base[c])[:160], why[:120])
+                    p["id"], p["fam"], c, r["kind"], r["k"], runs[0]["kind"], runs[0]["k"], str(obs_of(rec, r, c))[:160],
+                    str(obs_of(rec, runs[0], c))[:160], why[:120])
     return "program %d (%s): %s" % (p["id"], p["fam"], why[:300])
 
 
 def run(ctx):
     # (0) design check: self-composition of the concrete table under two hash assignments
-    r = ctx.tlc_ok("C03MC", "C03MC.cfg", workers=8, timeout=1500, heap="8g")
+    r = ctx.tlc_ok("C03MC", "C03MC.cfg" if ctx.quick else "C03MCThorough.cfg", workers=8, timeout=3000, heap="8g")
     ctx.log("design check C03MC: %d states, %d transitions: iteration order independent of the hash assignment" % (r["states"], r["transitions"]))
     design_states = r["states"]
 
     pool, header, progs = generate(ctx)
     hdig = hashlib.sha1(json.dumps(header).encode()).hexdigest()
     ctx.log("generated %d programs (%s)" % (len(progs), ", ".join("%s=%d" % (f, sum(1 for p in progs if p["fam"] == f)) for f in ("ord", "feat", "gen"))))
-    chunk = 8 if ctx.quick else 25      # programs per child process (process creation is the dominant cost)
-    groups = execute(ctx, header, progs, "runs", chunk=chunk)
-    if set(groups) != {p["id"] for p in progs}:
-        raise vlib.MachineryError("harness returned runs for %d of %d programs" % (len(groups), len(progs)))
-    nruns = sum(len(g) for g in groups.values())
-    fps = {r["fp"] for g in groups.values() for r in g}
+    chunk = 16 if ctx.quick else 50     # programs per child process (process creation is the dominant cost)
+    recs, summary, fps, nruns = [], {}, set(), 0
+    per_batch = 400
+    for bi in range(0, len(progs), per_batch):
+        batch = progs[bi:bi + per_batch]
+        groups = execute(ctx, header, batch, "runs%d" % bi, chunk=chunk)
+        if set(groups) != {p["id"] for p in batch}:
+            raise vlib.MachineryError("harness returned runs for %d of %d programs" % (len(groups), len(batch)))
+        for p in batch:
+            g = groups[p["id"]]
+            nruns += len(g)
+            fps.update(r["fp"] for r in g)
+            recs.append(make_record(p, g, hdig))
+            seq0 = [r for r in g if r["kind"] == "seq" and r["k"] == 0][0]["obs"]
+            summary[p["id"]] = {"steps": seq0["steps"], "err": seq0["err"], "ok": seq0["ok"], "static": seq0["static"],
+                                "printed": seq0["printed"][:200], "hash": len(seq0.get("hash") or []), "dirl": len(seq0.get("dirl") or [])}
+        del groups
+        if not ctx.quick:
+            ctx.log("batch %d: %d programs executed" % (bi // per_batch + 1, len(batch)))
     ctx.log("recorded %d runs in %d processes with distinct hash seeds" % (nruns, len(fps)))
-    recs = [make_record(p, groups[p["id"]], hdig) for p in progs]
     byid = {p["id"]: p for p in progs}
-    first = {p["id"]: groups[p["id"]] for p in progs}
     pf = pool_file(ctx, pool, header)
     bad = validate(ctx, recs, pf, "recs")
     ctx.log("TLC validated %d groups, %d rejected" % (len(recs), len(bad)))
@@ -846,9 +890,15 @@ def run(ctx):
         sig = signature(p, bad[pid])
         if sig in reported:
             continue
+        if len(reported) >= 8:
+            ctx.notes.append("further rejected programs not re-executed: %d (%s)" % (pid, sig))
+            continue
         again = None
+        # together with its neighbours, so that other executions precede and accompany it again
+        pos = progs.index(p)
+        ctxprogs = progs[max(0, pos - 4):pos + 4]
         for attempt in range(3):
-            g2 = execute(ctx, header, [p], "re%d_%d" % (pid, attempt), procs=6, gor=16)
+            g2 = execute(ctx, header, ctxprogs, "re%d_%d" % (pid, attempt), procs=6, gor=16, chunk=3)
             rec2 = make_record(p, g2[pid], hdig)
             b2 = validate(ctx, [rec2], pf, "re%d_%d" % (pid, attempt))
             if pid in b2:
@@ -866,8 +916,7 @@ def run(ctx):
     nontrivial = set()
     hints = errors = static = ordops = hashes = dirs = 0
     for p in progs:
-        o = first[p["id"]]
-        seq0 = [r for r in o if r["kind"] == "seq" and r["k"] == 0][0]["obs"]
+        seq0 = summary[p["id"]]
         fam[p["fam"]] = fam.get(p["fam"], 0) + 1
         if seq0["steps"] > 0 or "did you mean" in seq0["err"]:
             nontrivial.add(p["src"])
@@ -875,8 +924,8 @@ def run(ctx):
         errors += (not seq0["ok"]) and not seq0["static"]
         static += seq0["static"]
         ordops += len(p.get("ops", []))
-        hashes += len(seq0.get("hash") or [])
-        dirs += len(seq0.get("dirl") or [])
+        hashes += seq0["hash"]
+        dirs += seq0["dirl"]
     ctx.cov.update({"evaluations": nruns, "programs": len(progs), "runs_per_program": nruns // max(1, len(progs)),
                     "distinct_nontrivial": len(nontrivial), "traces_validated_against_impl": nruns,
                     "processes_with_distinct_hash_seed": len(fps), "per_family": fam,
@@ -885,8 +934,8 @@ def run(ctx):
                     "programs_with_did_you_mean_hint": int(hints), "hash_values_checked_against_java_hashcode": hashes,
                     "dir_listings_checked_sorted": dirs, "design_check_states": design_states})
     for p in progs[:: max(1, len(progs) // 5)][:5]:
-        seq0 = [r for r in first[p["id"]] if r["kind"] == "seq"][0]["obs"]
-        ctx.samples.append({"family": p["fam"], "src": p["src"][:400], "steps": seq0["steps"], "err": seq0["err"][:120], "printed": seq0["printed"][:200]})
+        seq0 = summary[p["id"]]
+        ctx.samples.append({"family": p["fam"], "src": p["src"][:400], "steps": seq0["steps"], "err": seq0["err"][:120], "printed": seq0["printed"]})
     ctx.assumptions = ["time.now() is read through the injected per-thread clock (fixed instant); wall-clock time is excluded by the property",
                        "the predeclared environment (json, math, time, struct, module, trace, ob, frozen SHARED_* values) is rebuilt identically in every process and shared by all threads of a process",
                        "fresh processes are re-executions of the harness binary; their string-hash seeds are observed to differ (fingerprint of String.Hash)",
